@@ -536,7 +536,7 @@ class IkeSa(object):
         self.state = IkeSa.State.INIT_RES_SENT
 
         # store messages for later authentication
-        self.ike_sa_init_req_data = request.to_bytes()
+        self.ike_sa_init_req_data = request.data
         self.ike_sa_init_res_data = response.to_bytes()
 
         # return response
@@ -727,7 +727,7 @@ class IkeSa(object):
         self.process_ike_sa_negotiation_response(response, self.request.get_payload(Payload.Type.NONCE).nonce)
 
         # save the message for later authentication
-        self.ike_sa_init_res_data = response.to_bytes()
+        self.ike_sa_init_res_data = response.data
 
         # return IKE_AUTH request callback
         return self.generate_ike_auth_request()
